@@ -250,7 +250,7 @@ public:
                 MemoryManager&      theMemoryManager) :
         m_memoryManager(&theMemoryManager),
         m_blockSize(theRHS.m_blockSize),
-        m_blockIndex(*theRHS.m_memoryManager,
+        m_blockIndex(theMemoryManager,
                     theRHS.size() / theRHS.m_blockSize + (theRHS.size() % theRHS.m_blockSize == 0 ? 0 : 1)),
         m_freeBlockVector(theMemoryManager)
     {
